@@ -272,7 +272,8 @@ class DirectedGraphNetwork(object):
             for hole in holes:
                 add_segs.extend(hole.segments)
         split_seg = cls._intersect_segments(split_segments, add_segs, tolerance)
-        split_seg = cls._remove_segments_outside_boundary(split_seg, boundary, tolerance)
+        split_seg = cls._remove_segments_outside_boundary(
+            split_seg, boundary, tolerance, holes)
         if len(split_seg) == 0:  # none of the segments are inside the shape
             return dg
 
@@ -874,7 +875,7 @@ class DirectedGraphNetwork(object):
         return split_segments
 
     @staticmethod
-    def _remove_segments_outside_boundary(segments, boundary, tolerance):
+    def _remove_segments_outside_boundary(segments, boundary, tolerance, holes=None):
         """Remove LineSegment2D that are outside the boundary of the parent shape.
 
         This can be used to clean up the result after intersection of segments.
@@ -887,6 +888,9 @@ class DirectedGraphNetwork(object):
                 the result.
             tolerance: The tolerance for distinguishing whether skeleton points lie
                 outside the boundary.
+            holes: An optional list of Polygon2D for the holes of the shape.
+                Segments that lie inside of these holes or along their edges
+                will be removed from the result.
 
         Returns:
             A list of LineSegment2D objects with segments removed that outside
@@ -894,9 +898,15 @@ class DirectedGraphNetwork(object):
         """
         clean_segments = []
         for seg in segments:
-            p1, p2 = seg.p1, seg.p2
+            p1, p2, mid = seg.p1, seg.p2, seg.midpoint
+            # the midpoint catches segments that cross a gap of a concave boundary
+            # and segments that run along an edge instead of through the shape
             if boundary.point_relationship(p2, tolerance) >= 0 and \
-                    boundary.point_relationship(p1, tolerance) >= 0:
+                    boundary.point_relationship(p1, tolerance) >= 0 and \
+                    boundary.point_relationship(mid, tolerance) > 0:
+                if holes is not None and any(
+                        hole.point_relationship(mid, tolerance) >= 0 for hole in holes):
+                    continue
                 clean_segments.append(seg)
         return clean_segments
 
